@@ -149,6 +149,8 @@ class RealX(Real):
                 return "obj:" + n
             self.newobj = res
             return "new"
+        if a == "MergeTok":
+            return self.merge_tok(arg)
         if a == "ExpireV":
             return self.call(lambda: s.expire(self.objs[arg], ["v"]))[0]
         if a == "Read":
@@ -238,6 +240,61 @@ class RealX(Real):
             return "new" if ok else "new-bad"
         return super().do(a, arg)
 
+    def merge_tok(self, k, tok="tk"):
+        """merge() of a detached copy loaded by ANOTHER session under an identity token; the result must be the instance of
+        the identity key INCLUDING the token.  The result is expunged again before the step ends."""
+        from sqlalchemy.orm import Session
+        s = self.session
+        self.counting = False
+        try:
+            with Session(self.engine) as s2:
+                src = s2.get(T, k, identity_token=tok)
+                if src is None:
+                    return "tok-src-missing"
+                s2.expunge(src)
+        finally:
+            self.counting = True
+        want = sa.inspect(src).key
+        if want[2] != tok:
+            return "tok-src-key %r" % (want,)
+        r, res = self.call(lambda: s.merge(src))
+        if r != "ok":
+            return r
+        ev, nsql, stmts = list(self.events), self.nsql, list(self.stmts)
+        st = sa.inspect(res)
+        bad = []
+        if self.name_of(res) is not None:
+            bad.append("returned the instance of another identity key (%s, key %r) for key %r" % (self.name_of(res), st.key, want))
+        elif st.persistent:
+            out = "tok:persistent"
+            if st.key != want:
+                bad.append("result key %r, source key %r" % (st.key, want))
+            if s.identity_map.get(want) is not res:
+                bad.append("identity_map[%r] is not the merged instance" % (want,))
+            self.counting = False
+            try:
+                again = s.get(T, k, identity_token=tok)
+            finally:
+                self.counting = True
+            if again is not res:
+                bad.append("get(identity_token) returns another instance")
+            del again
+            plain = s.identity_map.get(want[:2] + (None,))
+            if plain is res:
+                bad.append("merged instance registered under the token-less key")
+            del plain
+        elif st.pending:
+            out = "tok:pending"
+        else:
+            bad.append("result neither persistent nor pending")
+        if not bad:
+            s.expunge(res)
+        del st, res, src
+        gc.collect()
+        self.events, self.nsql, self.stmts = ev, nsql, stmts
+        self.known_events()
+        return ("tok-bad: " + "; ".join(bad)) if bad else out
+
     # ------------------------------------------------------------------ observers
     def observe(self, with_work=True):
         if self.wrefs or self.always_gc:
@@ -284,7 +341,7 @@ class DriverX:
         arg = act["arg"]
         r = self.real
         if a in ("Add", "Delete", "Expunge", "Expire", "Refresh", "MakeTransient", "Get", "ExpireV", "Read", "DropRef",
-                 "ExtDel", "QueryAll", "QueryV", "FQueryAll", "FQueryV", "FGet", "FRefresh", "FRead"):
+                 "ExtDel", "MergeTok", "QueryAll", "QueryV", "FQueryAll", "FQueryV", "FGet", "FRefresh", "FRead"):
             arg = arg[0]
         elif a in ("SetV", "SetPk", "ExtSet", "Merge", "Pickle"):
             arg = tuple(arg)
